@@ -34,6 +34,7 @@ def plan(c):
     def seed():
         return str(c.rng.below(2**31) + 1)
     runs = []
+    common = ["-retries", "2", "-timeout", "25s" if c.tier == "quick" else "40s"]
     if c.tier == "quick":
         runs.append(("clean-4", ["-scenario", "clean", "-n", "4", "-heights", "4", "-seed", seed()]))
         runs.append(("split-4", ["-scenario", "split", "-n", "4", "-heights", "3", "-seed", seed()]))
@@ -55,7 +56,7 @@ def plan(c):
                 runs.append(("chaos-%d-%d" % (n, i), ["-scenario", "chaos", "-n", str(n), "-heights", "4", "-seed", seed(), "-byzmode"]))
         for i in range(2):
             runs.append(("chaos-nobyz-%d" % i, ["-scenario", "chaos", "-n", "4", "-heights", "4", "-seed", seed()]))
-    return runs
+    return [(name, args + common) for name, args in runs]
 
 
 class Ids:
@@ -89,8 +90,15 @@ def encode_run(idx, obs):
     for i in correct:
         streams.append([(int(e[0]), ids.get(e[1]), int(e[2])) for e in obs["streams"].get(str(i), [])])
     stores = []
+    certs = []     # signer masks of the commit certificates kept in the CommittedHeaderStores
+    nocert = 0
     for i in correct:
         stores.append([(int(e[0]), ids.get(e[1])) for e in obs.get("stores", {}).get(str(i), [])])
+        for e in obs.get("stores", {}).get(str(i), []):
+            if len(e) >= 4 and e[3]:
+                certs.append(sum(1 << int(x) for x in set(e[3])))
+            else:
+                nocert += 1
     votes = []     # (kind, h, r, id, signer) signed by the correct validators' strategies
     for i in correct:
         for d in obs.get("decisions", {}).get(str(i), []):
@@ -123,9 +131,10 @@ def encode_run(idx, obs):
     t.append("Definition %sstreams : list stream := %s." % (p, coq_list(coq_stream([(h, b) for h, b, _ in s]) for s in streams)))
     t.append("Definition %sstores : list stream := %s." % (p, coq_list(coq_stream(s) for s in stores)))
     t.append("Definition %straces : list (list event) := %s." % (p, coq_list(coq_list(e) for e in traces)))
-    t.append("Definition %sout := Eval vm_compute in judge %svals %sbyz %sV %sstreams %sstores %straces." % (p, p, p, p, p, p, p))
+    t.append("Definition %scerts : list N := %s." % (p, coq_list(str(x) for x in sorted(set(certs)))))
+    t.append("Definition %sout := Eval vm_compute in judge %svals %sbyz %sV %sstreams %sstores %scerts %straces." % (p, p, p, p, p, p, p, p))
     t.append("Print %sout." % p)
-    info = {"ids": ids.m, "streams": streams, "stores": stores, "votes": len(votes),
+    info = {"ids": ids.m, "streams": streams, "stores": stores, "votes": len(votes), "certs": len(certs), "nocert": nocert,
             "rounds_gt0": sum(1 for s in streams for e in s if e[2] > 0)}
     return "\n".join(t) + "\n", info
 
@@ -138,12 +147,14 @@ Definition stream_eqb (a b : stream) : bool :=
   forallb (fun p => (fst (fst p) =? fst (snd p)) && (snd (fst p) =? snd (snd p))) (combine a b).
 Definition model_explains (vals : N -> list N) (obs : stream) (tr : list event) : bool :=
   match run vals (init_node %d) tr with Some n => stream_eqb (stream_of n) obs | None => false end.
+(* certs: signer masks of the commit certificates found in the CommittedHeaderStores (each must be a quorum) *)
 (* (monitor on finalize streams, monitor on streams+stores, valset, A1, A2, A3, model's monitor verdict on the
    model's own streams, per node: the model reproduces the observed stream from the votes really signed) *)
-Definition judge vals byz V (streams stores : list stream) (traces : list (list event)) :=
+Definition judge vals byz V (streams stores : list stream) (certs : list N) (traces : list (list event)) :=
   (c03_mon %d streams, c03_mon %d (streams ++ stores), valset_okb (vals 0) (byz 0),
    a1b byz V, a2b vals byz V, a3b vals byz V,
    c03_mon %d (map (fun tr => match run vals (init_node %d) tr with Some n => stream_of n | None => [] end) traces),
+   forallb (quorumb (vals 0)) certs,
    map (fun p => model_explains vals (fst p) (snd p)) (combine streams traces)).
 """ % (H0, H0, H0, H0, H0)
 
@@ -154,10 +165,10 @@ def parse_out(cout, idx):
         return None
     toks = re.findall(r"true|false", m.group(1))
     vals = [x == "true" for x in toks]
-    if len(vals) < 7:
+    if len(vals) < 8:
         return None
     return {"mon_streams": vals[0], "mon_all": vals[1], "valset": vals[2], "a1": vals[3], "a2": vals[4], "a3": vals[5],
-            "model_mon": vals[6], "explained": vals[7:]}
+            "model_mon": vals[6], "certs": vals[7], "explained": vals[8:]}
 
 
 def main(argv):
@@ -179,6 +190,14 @@ def main(argv):
         "[C01/C08] - checked on every run by replaying the observed stream through the model (model_explains)",
     ]
     c.grep_gate()
+    import time
+    phases = {}
+    t_ph = time.time()
+
+    def mark(name):
+        nonlocal t_ph
+        phases[name] = round(time.time() - t_ph, 1)
+        t_ph = time.time()
 
     # 1. regenerate the threshold functions, 2. re-check the theorems
     tok, tlog = c.translate(only=["Gen/Math.v", "Gen/Commit.v"])
@@ -189,8 +208,10 @@ def main(argv):
     else:
         proved = c.prove("C03")
 
+    mark("translate+prove")
     # 3. real engines
     binary, blog = c.go_build("c03")
+    mark("go_build")
     if binary is None:
         c.fail_obligation("harness-build", blog[-1500:])
         c.finish()
@@ -216,6 +237,7 @@ def main(argv):
     with concurrent.futures.ThreadPoolExecutor(max_workers=workers) as ex:
         results = list(ex.map(one, runs))
 
+    mark("harness_runs")
     # 4. judge inside coqc
     body = PRELUDE
     infos = {}
@@ -237,11 +259,13 @@ def main(argv):
             for idx in good:
                 verdicts[idx] = parse_out(cout, idx)
 
+    mark("coq_eval")
     # 5. verdict
     any_impl_failure = False
     n_final = 0
     dist = {"runs": len(results), "by_scenario": {}, "finalizations": 0, "finalized_in_round_gt0": 0, "votes_signed": 0,
-            "timed_out": 0, "engine_panics": 0}
+            "timed_out": 0, "engine_panics": 0, "engine_crashes": 0,
+            "store_certificates_checked": 0, "store_entries_without_certificate": 0}
     for idx in good:
         name, args, obs, err = results[idx]
         info = infos[idx]
@@ -253,6 +277,9 @@ def main(argv):
         dist["votes_signed"] += info["votes"]
         dist["timed_out"] += 1 if obs.get("timed_out") else 0
         dist["engine_panics"] += len(obs.get("panics") or [])
+        dist["engine_crashes"] += 1 if obs.get("crashed") else 0
+        dist["store_certificates_checked"] += info["certs"]
+        dist["store_entries_without_certificate"] += info["nocert"]
         n_final += sum(len(s) for s in info["streams"])
         replay = {"run": name, "args": args, "how": "bin/h_c03 " + " ".join(args),
                   "streams": obs.get("streams"), "stores": obs.get("stores"), "decisions": obs.get("decisions"),
@@ -276,6 +303,11 @@ def main(argv):
                      "a node finalized a block for which the precommits signed by correct validators plus the Byzantine "
                      "power are no quorum - the model's commit rule refuses the observed stream (scenario %s, nodes %s)"
                      % (name, [i for i, e in enumerate(v["explained"]) if not e]), replay)
+        if not v["certs"] and v["valset"]:
+            any_impl_failure = True
+            c.report("store-certificate-without-quorum-%s" % sc,
+                     "a CommittedHeaderStore holds a header whose stored commit certificate has less than a >2/3 quorum "
+                     "of signers (scenario %s): %s" % (name, json.dumps(obs.get("stores"))[:300]), replay)
         for hyp in ("a1", "a2", "a3"):
             if not v[hyp]:
                 any_impl_failure = True
@@ -303,5 +335,6 @@ def main(argv):
                 "streams and on streams+stores, A1/A2/A3 on the votes the correct strategies signed, model_explains per node",
         "traces_validated_against_impl": sum(len(infos[i]["streams"]) for i in good),
         "distribution": dist,
+        "phase_seconds": phases,
     })
     c.finish()
